@@ -54,6 +54,7 @@ class HistRunner:
         self.top = common.new_dir(tag)
         self.clock = Clock()
         self.m = Model(prog)
+        self.m.reader = lambda n: read_file(self.path(n))
         self.trace = os.path.join(self.top, '.rv-trace')
         self.env_extra = dict(env_extra or {})
         self.verif_log = verif_log
@@ -260,6 +261,12 @@ class HistRunner:
                                  what='%s was not rebuilt although %s was force-rebuilt (redo) in a run that had already checked one of them'
                                       % late_hits[0]))
         self.late |= ctx['late']
+        for n in sorted(ctx.get('became_static', ())):
+            # its rule is gone and redo has taken the file for a source: from now on it is the user's (C11: never regenerated)
+            b = m.static.pop(n, None)
+            if b is not None:
+                p.user[n] = b
+                self.stats['targets_turned_source_after_rule_removal'] = self.stats.get('targets_turned_source_after_rule_removal', 0) + 1
         for n in sorted(ctx.get('unsettled_overbuild', ())):
             if n in ex:
                 anoms.append(Anomaly(cls='overbuild', key='overbuild:nested-checksummed-targets-not-settled-in-one-round', cont=True, target=n,
